@@ -49,7 +49,7 @@ RULE = (
 ASSUMPTIONS = [
     "the property is stated in pixels: calibration carried by Dataset2d/Dataset3d inputs (sampling, origin, units) and the container type / memory layout of the frames must not change knots, coordinates, weights or resampled intensities (compared with the list-of-C-contiguous-float64-arrays result, bound 1e-6 relative, measured 0)",
     "mixed-shape list stacks are judged frame by frame against the closed form for that frame's own shape; the canvas size (which the library derives from the first two frames) is read from the object",
-    "intensity placement: frames are linear ramps in canvas coordinates; inside the fully supported part of a frame (more than 4 sigma + 1.5 px from its edges, footprint not touching the canvas border) the resampled value must be the ramp value within the equivalent of 0.5 px (measured <= 0.07 px: kernel-weighted mean offset of the contributing samples)",
+    "intensity placement: frames are linear ramps in canvas coordinates; inside the fully supported part of a frame (more than 4 sigma + 1.5 px from its edges, footprint not touching the canvas border) the resampled value must be the ramp value within the equivalent of 0.5 px (measured <= 0.07 px at scale 1 and <= 0.2 px for upsampled warps: the kernel-weighted mean offset of the contributing samples, which cannot exceed half the sample spacing)",
     "rotation convention pinned from the property text and the theta=0 case: offsets (d_row, d_col) map to (cos*d_row - sin*d_col, sin*d_row + cos*d_col); theta = scan_direction_degrees",
     "the canvas shape is read from the object (DriftCorrection.shape); the property fixes the placement relative to the canvas centre, not the canvas size",
     "coordinates are float64: bound 1e-9 px (measured <= 1e-14); weight maps are accumulated in float32: sum bound 1e-4 relative (measured <= 1e-6), centroid bound 1e-5 px (measured 2e-8), cross moment bound 1e-5*(V_r+V_c)+1e-5 px^2 (measured 3e-7)",
@@ -247,7 +247,7 @@ def ramp_image(shape, angle_deg, coef):
     """Frame whose intensity is a *linear function of the canvas position* its pixels are supposed to land on:
     v(r, c) = a*X + b*Y + g with (X, Y) = R(theta)(r - (R-1)/2, c - (C-1)/2) the closed-form offset from the canvas centre.
     Wherever the resampled frame is fully supported, the normalised KDE estimate at canvas pixel q is then a*(q_r - centre_r) +
-    b*(q_c - centre_c) + g up to the kernel-weighted mean offset of the contributing samples (measured <= 0.07 px)."""
+    b*(q_c - centre_c) + g up to the kernel-weighted mean offset of the contributing samples (measured <= 0.2 px)."""
     R, C = shape
     th = np.deg2rad(angle_deg)
     dr = np.arange(R, dtype=np.float64)[:, None] - (R - 1) / 2.0
